@@ -286,7 +286,7 @@ fn check_redirect(mask: u8, kind_idx: usize, l: &mut Local) {
     let served = [d1.is_some(), d2.is_some(), e1.is_some(), e2.is_some()];
     if mask != 0 {
         l.compared += 1;
-        l.hist("redirect:permissioned-refused-or-served");
+        l.hist(if served.iter().any(|s| *s) { "redirect:PERMISSIONED-SERVED" } else { "redirect:permissioned-refused" });
         if served.iter().any(|s| *s) {
             l.mismatch(Mismatch {
                 sig: format!("c18.redirect.permissioned-resource-served.{}", kname),
